@@ -27,6 +27,8 @@ use crate::types::{
 
 enum CachedLogSafety {
     Uncomputed,
+    // The type's safety is being computed, at this depth of the traversal.
+    InProgress(usize),
     Computed(Option<LogSafety>),
 }
 
@@ -43,6 +45,9 @@ pub struct Context {
     serialize_empty_collections: bool,
     strip_prefix: Vec<String>,
     version: Option<String>,
+    log_safety_depth: Cell<usize>,
+    // The depth of the shallowest in-progress type the current log safety computation has consulted.
+    log_safety_cycle: Cell<usize>,
 }
 
 impl Context {
@@ -59,6 +64,8 @@ impl Context {
             serialize_empty_collections,
             strip_prefix: vec![],
             version: version.map(str::to_owned),
+            log_safety_depth: Cell::new(0),
+            log_safety_cycle: Cell::new(usize::MAX),
         };
 
         if let Some(strip_prefix) = strip_prefix {
@@ -1032,12 +1039,22 @@ impl Context {
     fn type_log_safety_ref(&self, name: &TypeName) -> Option<LogSafety> {
         let ctx = &self.types[name];
 
-        if let CachedLogSafety::Computed(safety) = &*ctx.log_safety.borrow() {
-            return safety.clone();
+        match &*ctx.log_safety.borrow() {
+            CachedLogSafety::Computed(safety) => return safety.clone(),
+            // temporarily treat it as safe in case of recursive type definitions, and remember that the results of
+            // everything between it and the current type now depend on that assumption.
+            CachedLogSafety::InProgress(depth) => {
+                self.log_safety_cycle
+                    .set(usize::min(self.log_safety_cycle.get(), *depth));
+                return Some(LogSafety::Safe);
+            }
+            CachedLogSafety::Uncomputed => {}
         }
 
-        // temporarily treat it as safe in case of recursive type definitions.
-        *ctx.log_safety.borrow_mut() = CachedLogSafety::Computed(Some(LogSafety::Safe));
+        let depth = self.log_safety_depth.get();
+        *ctx.log_safety.borrow_mut() = CachedLogSafety::InProgress(depth);
+        self.log_safety_depth.set(depth + 1);
+        let outer_cycle = self.log_safety_cycle.replace(usize::MAX);
 
         let safety = match &ctx.def {
             TypeDefinition::Alias(alias) => alias
@@ -1070,7 +1087,19 @@ impl Context {
                 .fold(None, |a, b| self.combine_safety(a, b)),
         };
 
-        *ctx.log_safety.borrow_mut() = CachedLogSafety::Computed(safety.clone());
+        self.log_safety_depth.set(depth);
+        let cycle = self.log_safety_cycle.get();
+        let provisional = cycle < depth;
+        self.log_safety_cycle
+            .set(if provisional { cycle } else { usize::MAX }.min(outer_cycle));
+
+        // A safe result that assumed a type further up the stack to be safe must not be memoized, since that type may
+        // turn out not to be.
+        *ctx.log_safety.borrow_mut() = if provisional && safety == Some(LogSafety::Safe) {
+            CachedLogSafety::Uncomputed
+        } else {
+            CachedLogSafety::Computed(safety.clone())
+        };
         safety
     }
 
